@@ -229,6 +229,39 @@ class Body:
                     out.append((b, s))
         return out
 
+    def loop_of(self, head):
+        """union of the natural loops with this header, or None when `head` is not a loop header"""
+        c = self.__dict__.setdefault('_loop_of', {})
+        if head not in c:
+            loops = [self.natural_loop(t, h) for t, h in self.back_edges() if h == head]
+            c[head] = set().union(*loops) if loops else None
+        return c[head]
+
+    def loop_modified_locals(self, head):
+        """locals a loop can change between two visits of its header: assigned (directly or through a projection) or used
+        as a call destination inside the loop, or mutably borrowed / raw-borrowed anywhere in the function (the borrow may
+        be used inside the loop)"""
+        c = self.__dict__.setdefault('_loop_mod', {})
+        if head in c:
+            return c[head]
+        loop = self.loop_of(head) or set()
+        out = set()
+        for i, b in enumerate(self.blocks):
+            for s in b['stmts']:
+                if s['k'] != 'assign':
+                    continue
+                r = s['r']
+                if r.get('k') in ('ref', 'rawptr') and str(r.get('mut')).lower() not in ('false', 'not', 'const') and not \
+                        any(e['k'] == 'deref' for e in r['p']['proj']):
+                    out.add(r['p']['l'])
+                if i in loop and not any(e['k'] == 'deref' for e in s['p']['proj']):
+                    out.add(s['p']['l'])
+            t = b['term']
+            if i in loop and t['k'] == 'call' and not any(e['k'] == 'deref' for e in t['dest']['proj']):
+                out.add(t['dest']['l'])
+        c[head] = out
+        return out
+
     def natural_loop(self, tail, head):
         preds = self.preds()
         loop = {head}
